@@ -43,19 +43,19 @@ PROP = {
         {'name': 'evictions',
          'pkg': 'pkg/descheduler/evictions',
          'files': ['C16/c16_evictions_test.go'],
-         'tests': [{'run': 'TestVerifC16PodEvictorSequential', 'quick': 2000, 'thorough': 15000},
-                   {'run': 'TestVerifC16PodEvictorInterleaved', 'quick': 600, 'thorough': 3000},
-                   {'run': 'TestVerifC16PodEvictorParallel', 'quick': 300, 'thorough': 3000, 'race': True, 'shrinktime': '5s'}]},
+         'tests': [{'run': 'TestVerifC16PodEvictorSequential', 'quick': 2000, 'thorough': 10000},
+                   {'run': 'TestVerifC16PodEvictorInterleaved', 'quick': 600, 'thorough': 2000},
+                   {'run': 'TestVerifC16PodEvictorParallel', 'quick': 300, 'thorough': 1500, 'race': True, 'shrinktime': '5s'}]},
         {'name': 'proxy',
          'pkg': 'pkg/descheduler/framework/runtime',
          'files': ['C16/c16_proxy_test.go'],
-         'tests': [{'run': 'TestVerifC16ProxySequential', 'quick': 2000, 'thorough': 15000},
-                   {'run': 'TestVerifC16ProxyInterleaved', 'quick': 600, 'thorough': 3000},
-                   {'run': 'TestVerifC16ProxyParallel', 'quick': 300, 'thorough': 3000, 'race': True, 'shrinktime': '5s'}]},
+         'tests': [{'run': 'TestVerifC16ProxySequential', 'quick': 2000, 'thorough': 10000},
+                   {'run': 'TestVerifC16ProxyInterleaved', 'quick': 600, 'thorough': 2000},
+                   {'run': 'TestVerifC16ProxyParallel', 'quick': 300, 'thorough': 1500, 'race': True, 'shrinktime': '5s'}]},
         {'name': 'arbitrator',
          'pkg': 'pkg/descheduler/controllers/migration/arbitrator',
          'files': ['C16/c16_arbitrator_test.go'],
-         'tests': [{'run': 'TestVerifC16ArbitrationRounds', 'quick': 100, 'quick_shards': 4, 'thorough': 2000, 'steps': 40,
+         'tests': [{'run': 'TestVerifC16ArbitrationRounds', 'quick': 100, 'quick_shards': 4, 'thorough': 1200, 'steps': 40,
                     'shrinktime': '15s'}]},
     ],
     'manifest': {
